@@ -178,6 +178,9 @@ func (s *hstore) Append(_ context.Context, hs ...*header.ExtendedHeader) error {
 	s.mu.Lock()
 	defer s.mu.Unlock()
 	for _, h := range hs {
+		if s.head != 0 && h.Height() != s.head+1 {
+			panic(fmt.Sprintf("verif harness: header %d appended to a store whose head is %d", h.Height(), s.head))
+		}
 		s.headers[h.Height()] = h
 		if h.Height() > s.head {
 			s.head = h.Height()
@@ -265,6 +268,10 @@ type stubPruner struct {
 	st     *hstore
 	n      atomic.Int64
 	inner  pruner.Pruner // optional real pruner behind the script (part 2)
+	// afterCall, when set, runs inside Prune after the call was recorded (k = number of calls since it was
+	// set): the driver uses it to let the header store grow between two batches of one cycle
+	afterCall func(k int)
+	sinceHook int
 }
 
 var errScripted = errors.New("verif: scripted prune failure")
@@ -285,8 +292,14 @@ func (p *stubPruner) Prune(ctx context.Context, eh *header.ExtendedHeader) error
 	if len(p.calls) < 200000 {
 		p.calls = append(p.calls, c)
 	}
+	hook := p.afterCall
+	p.sinceHook++
+	nth := p.sinceHook
 	p.mu.Unlock()
 	p.n.Add(1)
+	if hook != nil {
+		hook(nth)
+	}
 	if !ok {
 		return errScripted
 	}
@@ -654,7 +667,7 @@ func (r *replayer) run() {
 	}()
 
 	steps := b.Steps
-	for i := 1; i < len(steps) && !r.aborted; i++ {
+	for i := 1; i < len(steps) && !r.aborted && len(r.drift) == 0; i++ {
 		s := steps[i]
 		r.stepIdx = i
 		switch s.N {
@@ -662,6 +675,7 @@ func (r *replayer) run() {
 			// collect the model's cycle
 			j := i + 1
 			var retry, batchCalls []int
+			headAfter := map[int][]rec{} // number of Prune calls of this cycle after which the head grows
 			ended := false
 			for ; j < len(steps); j++ {
 				x := steps[j]
@@ -677,6 +691,9 @@ func (r *replayer) run() {
 					}
 				case "CycleEnd":
 					ended = true
+				case "Head":
+					// the head grows between two batches: after the last Prune call of the batch just finished
+					headAfter[len(retry)+len(batchCalls)] = append(headAfter[len(retry)+len(batchCalls)], x)
 				default:
 					// an environment step inside a cycle (head growth between batches) is not replayed here
 					r.driftf("unexpected model step %s inside a cycle", x.N)
@@ -716,7 +733,27 @@ func (r *replayer) run() {
 					failedBefore[int(f)] = true
 				}
 			}
+			r.stub.mu.Lock()
+			r.stub.sinceHook = 0
+			if len(headAfter) > 0 {
+				r.stub.afterCall = func(k int) {
+					for _, x := range headAfter[k] {
+						ht := in.Time[x.H-1]
+						if x.T != nil {
+							ht = *x.T
+						}
+						_ = r.st.Append(context.Background(), mkHeader(uint64(x.H), mtime(ht)))
+						r.rep.Count("head_grew_inside_cycle", 1)
+					}
+				}
+			} else {
+				r.stub.afterCall = nil
+			}
+			r.stub.mu.Unlock()
 			cs, fin := r.runCycle(pendingStart, len(retry)+len(batchCalls))
+			r.stub.mu.Lock()
+			r.stub.afterCall = nil
+			r.stub.mu.Unlock()
 			pendingStart = false
 			r.monitorCalls(cs)
 			r.rep.Count("prune_calls", int64(len(cs)))
